@@ -1025,6 +1025,28 @@ class StoreGen:
                 if not is_basic(vw['t']):
                     self.views.append(dict(t=vw['t'], v=vw['v'], hook=None, kids=False))
                     ops.append(['copy', i])
+            elif c < 0.42 and c >= 0.36:
+                # view.f_k.value().<op>: a mutation through the value view of a union child, both views being temporaries
+                cu = []
+                for i, vw in enumerate(self.views):
+                    if self.stale(i):
+                        continue
+                    for key in self.child_keys(vw):
+                        ct, cv = self.child_tv(vw, key)
+                        if kind(ct) == 'union' and kind(vw['t']) != 'union':
+                            uview = dict(t=ct, v=cv, hook=None, kids=False)
+                            if self.child_keys(uview):
+                                cu.append((i, key, uview))
+                if cu:
+                    i, key, uview = r.choice(cu)
+                    vt, vv = self.child_tv(uview, 0)
+                    op = self.one_op(dict(t=vt, v=vv, hook=None, kids=False))
+                    if op is not None and op[0] != 'sets':
+                        vv2 = _apply_val(vt, vv, op)
+                        pv = self.views[i]
+                        pv['v'] = pv['v'][:1 + key] + [['u', uview['v'][1], vv2]] + pv['v'][2 + key:]
+                        self.propagate(i)
+                        ops.append(['mutv', i, key, len(self.views), op])
             elif c < 0.36 and cand_child:
                 # a throw-away copy of a held view gets an element replaced by an equal-root SUMMARY of it
                 i, key = r.choice(cand_child)
